@@ -28,6 +28,7 @@ VARIANTS = [("no_neg_norm", "slice"), ("clamp_off", "slice"), ("ass_nolen", "sli
 
 CLAUSE = {
     "buffer:length": "ffi.buffer(p, n) is not a length-n view",
+    "buffer:not-accepted": "ffi.buffer(p, n) failed",
     "getidx:value": "buf[i] is not the byte at position i (negative i from the end)",
     "getidx:not-accepted": "buf[i] with -n <= i < n was rejected",
     "getidx:not-IndexError": "buf[i] outside -n <= i < n did not raise IndexError",
@@ -74,9 +75,9 @@ def machine_cfg(n, maxbufs, maxsteps, prune=False, view=True, variant="faithful"
 
 def validate(ctx, traces):
     bad = []
-    for lo in range(0, len(traces), 3000):
-        chunk = traces[lo:lo + 3000]
-        tups = core.tlc_verdicts(ctx, "Trace_Buffer", chunk)
+    for lo in range(0, len(traces), 8000):
+        chunk = traces[lo:lo + 8000]
+        tups = core.tlc_verdicts(ctx, "Trace_Buffer", chunk, workers=4)
         verdicts = {int(t[0]): (core.unq(t[1]), int(t[2])) for t in tups}
         if len(verdicts) != len(chunk):
             raise core.MachineryError("trace validation incomplete: %d verdicts for %d traces" % (len(verdicts), len(chunk)))
@@ -93,8 +94,8 @@ def design_runs(ctx):
     q = ctx.quick
     runs = [("MC_BufferSlice(len<=5, bounds -7..7/None, steps None,1,2,-1,0; 8-byte memmove; from_buffer)",
              "BufferSlice", slice_cfg(5, 7, 8)),
-            ("MC_Buffer(N=4, %d buffers, %d steps)" % ((1, 3) if q else (2, 3)), "Buffer",
-             machine_cfg(4, 1 if q else 2, 3))]
+            ("MC_Buffer(N=%d, %d buffers, %d steps)" % ((3, 1, 3) if q else (4, 2, 3)), "Buffer",
+             machine_cfg(3 if q else 4, 1 if q else 2, 3))]
     if not q:
         runs.append(("MC_Buffer(N=5, 2 buffers, 2 steps)", "Buffer", machine_cfg(5, 2, 2)))
     return runs
@@ -169,6 +170,9 @@ def replay_path(ctx, g, path, backing, traces, metas, scale=1):
             break
         tr["ev"].append(ev)
         ctx.case()
+        if ev.get("stop"):
+            div = "%s x%d: ffi.buffer(p, %d) has length %d" % (backing, scale, ev["n"], ev["num"])
+            break
         problems = []
         if ev["st"] != res["st"]:
             problems.append("status %s, model %s" % (ev["st"], res["st"]))
@@ -290,6 +294,8 @@ def spec_to_code(ctx, jobs, traces, metas, divergences):
             if e is not None:
                 tr["ev"].append(e)
                 ctx.case()
+                if e.get("stop"):
+                    break
         traces.append(tr)
         metas.append({"kind": "case", "mode": c["mode"], "backing": backing})
     ctx.cov["graphs"].append({"module": "BufferSlice", "states": len(states), "cases_executed": min(budget, len(states))})
@@ -326,7 +332,8 @@ def random_trace(ctx, rng, backing, n, nops, traces=None, metas=None, scale=1):
         ops = ["buffer"] * (6 if len(ar.bufs) < 6 else 0) + ["cwrite"] * 3 + ["move"] * 8 + ["movein"] * 3 + ["moveout"] * 3
         if len(ar.fbs) < 4:
             ops += ["frombuf"] * 4
-        if ar.bufs:
+        usable = [x + 1 for x, (o_, l_) in enumerate(ar.bufdesc) if o_ + l_ <= n]
+        if usable:
             ops += ["getidx"] * 6 + ["setidx"] * 6 + ["getslice"] * 12 + ["setslice"] * 14
         if ar.fbs:
             ops += ["fbget"] * 4 + ["fbset"] * 4
@@ -335,15 +342,18 @@ def random_trace(ctx, rng, backing, n, nops, traces=None, metas=None, scale=1):
         o = rng.choice(ops)
         op = {"op": o}
         if o == "buffer":
-            i = rng.randint(0, n)
-            op.update(i=i, n=rng.choice([0, n - i, rng.randint(0, n - i)]))
+            i = rng.choice([0, 0, n, rng.randint(0, n)])
+            sizes = [0, 0, 1, n - i, rng.randint(0, n - i)]
+            if backing != "array_H":
+                sizes.append(n - i + 1)         # one past the object: only its length is looked at
+            op.update(i=i, n=rng.choice([x for x in sizes if 0 <= x <= n - i + 1]))
         elif o in ("getidx", "setidx"):
-            b = rng.randrange(len(ar.bufs)) + 1
+            b = rng.choice(usable)
             ln = ar.bufdesc[b - 1][1]
             i = rand_bound(rng, ln)
             op.update(b=b, i=0 if i is None else i, val=[rng.getrandbits(8)])
         elif o in ("getslice", "setslice"):
-            b = rng.randrange(len(ar.bufs)) + 1
+            b = rng.choice(usable)
             ln = ar.bufdesc[b - 1][1]
             a, bb = rand_bound(rng, ln), rand_bound(rng, ln)
             s = rng.choice([None, None, None, 1, 1, 2, -1, 0, 3]) if rng.random() < 0.3 else None
@@ -396,6 +406,8 @@ def random_trace(ctx, rng, backing, n, nops, traces=None, metas=None, scale=1):
             continue
         ev.append(e)
         ctx.case((backing, o, e["st"]))
+        if e.get("stop"):
+            break
     return tr
 
 
